@@ -746,6 +746,14 @@ func (r *collection) addService(service any, lifetime Lifetime, opts ...AddOptio
 func (r *collection) registerFamily(family []*Descriptor, operation string) error {
 	pending := make(map[TypeKey]struct{}, len(family))
 	for _, descriptor := range family {
+		// Reserved types cannot be registered under any form
+		if _, isReserved := reservedTypes[descriptor.Type]; isReserved {
+			return &ValidationError{
+				ServiceType: descriptor.Type,
+				Cause:       fmt.Errorf("service type %s is reserved and cannot be registered", formatType(descriptor.Type)),
+			}
+		}
+
 		if descriptor.Key == nil && descriptor.Group != "" {
 			continue // group members never collide
 		}
